@@ -12,6 +12,15 @@ type batchTable struct {
 	len      uint32
 }
 
+// relationBatchTable is a helper struct for collecting tables for batch-changing relation targets.
+type relationBatchTable struct {
+	changeMask bitMask
+	oldTable   tableID
+	newTable   tableID
+	start      uint32
+	len        uint32
+}
+
 // newEntity creates a new entity.
 // Returns the entity and its bit.mask.
 func (w *World) newEntity(ids []ID, relations []relationID) (Entity, *bitMask) {
@@ -419,6 +428,8 @@ func (w *World) setRelations(entity Entity, relations []relationID) {
 }
 
 // setRelationsBatch batch-changes entity relations.
+//
+// Events are emitted before and after the entire batch, respectively.
 func (w *World) setRelationsBatch(batch *Batch, relations []relationID, fn func(table tableID, start, len int)) {
 	w.checkLocked()
 
@@ -426,87 +437,98 @@ func (w *World) setRelationsBatch(batch *Batch, relations []relationID, fn func(
 		panic("no relations specified")
 	}
 	lock := w.lock()
-	hasObserver := w.storage.observers.HasObservers(OnAddRelations) || w.storage.observers.HasObservers(OnRemoveRelations)
+	hasRemoveObs := w.storage.observers.HasObservers(OnRemoveRelations)
+	hasAddObs := w.storage.observers.HasObservers(OnAddRelations)
 
 	tables := w.storage.getBatchTables(batch)
 	lengths := w.storage.slices.ints
-	var totalEntities uint32 = 0
 	for _, tableID := range tables {
 		table := &w.storage.tables[tableID]
 		lengths = append(lengths, uint32(table.Len()))
-		totalEntities += uint32(table.Len())
 	}
 
+	// Find or create the target table for each table with changes.
+	batchTables := w.storage.slices.relationBatches
 	for i, tableID := range tables {
 		tableLen := lengths[i]
 		if tableLen == 0 {
 			continue
 		}
-		table := &w.storage.tables[tableID]
-		w.setRelationsTable(table, int(tableLen), relations, fn, hasObserver)
+		if b, changed := w.setRelationsTable(tableID, tableLen, relations, hasRemoveObs || hasAddObs); changed {
+			batchTables = append(batchTables, b)
+		}
 	}
-
 	w.storage.slices.ints = lengths[:0]
 	w.storage.slices.tables = tables[:0]
 
+	if hasRemoveObs {
+		for i := range batchTables {
+			b := &batchTables[i]
+			oldTable := &w.storage.tables[b.oldTable]
+			newMask := &w.storage.archetypes[oldTable.archetype].mask
+			earlyOut := true
+			for j := uintptr(0); j < uintptr(b.len); j++ {
+				if !w.storage.observers.FireSetRelations(OnRemoveRelations, oldTable.GetEntity(j), &b.changeMask, newMask, earlyOut) {
+					break
+				}
+				earlyOut = false
+			}
+		}
+	}
+
+	for i := range batchTables {
+		b := &batchTables[i]
+		oldTable := &w.storage.tables[b.oldTable]
+		newTable := &w.storage.tables[b.newTable]
+		b.start = uint32(newTable.Len())
+		w.storage.moveEntities(oldTable, newTable, b.len)
+		if fn != nil {
+			fn(b.newTable, int(b.start), int(b.len))
+		}
+	}
+
 	w.storage.registerTargets(relations)
+
+	if hasAddObs {
+		for i := range batchTables {
+			b := &batchTables[i]
+			newTable := &w.storage.tables[b.newTable]
+			newMask := &w.storage.archetypes[newTable.archetype].mask
+			earlyOut := true
+			for j := uintptr(b.start); j < uintptr(b.start+b.len); j++ {
+				if !w.storage.observers.FireSetRelations(OnAddRelations, newTable.GetEntity(j), &b.changeMask, newMask, earlyOut) {
+					break
+				}
+				earlyOut = false
+			}
+		}
+	}
+	w.storage.slices.relationBatches = batchTables[:0]
 
 	w.unlock(lock)
 }
 
-// setRelationsTable batch-changes entity relations for a single table.
-func (w *World) setRelationsTable(oldTable *table, oldLen int, relations []relationID, fn func(table tableID, start, len int), hasObserver bool) {
-	var changeMask bitMask
+// setRelationsTable finds or creates the target table for batch-changing entity relations of a single table.
+// Returns false if the relation targets of the table do not change.
+func (w *World) setRelationsTable(oldTableID tableID, oldLen uint32, relations []relationID, hasObserver bool) (relationBatchTable, bool) {
+	b := relationBatchTable{oldTable: oldTableID, len: oldLen}
 	var maskPointer *bitMask
 	if hasObserver {
-		maskPointer = &changeMask
+		maskPointer = &b.changeMask
 	}
+	oldTable := &w.storage.tables[oldTableID]
 	newRelations, changed := w.storage.getExchangeTargets(oldTable, relations, maskPointer)
-
 	if !changed {
-		return
+		return b, false
 	}
 
 	oldArch := &w.storage.archetypes[oldTable.archetype]
 	newTable, ok := oldArch.GetTable(&w.storage, newRelations)
 	if !ok {
 		newTable = w.storage.createTable(oldArch, newRelations)
-		// Get the old table again, as pointers may have changed.
-		oldTable = &w.storage.tables[oldTable.id]
 	}
-
-	// TODO: move this before the entire batch?
-	if w.storage.observers.HasObservers(OnRemoveRelations) {
-		newMask := &w.storage.archetypes[newTable.archetype].mask
-		len := uintptr(oldTable.len)
-		earlyOut := true
-		for i := uintptr(0); i < len; i++ {
-			if !w.storage.observers.FireSetRelations(OnRemoveRelations, oldTable.GetEntity(i), &changeMask, newMask, earlyOut) {
-				break
-			}
-			earlyOut = false
-		}
-	}
-
-	startIdx := newTable.Len()
-	w.storage.moveEntities(oldTable, newTable, uint32(oldLen))
-
-	if fn != nil {
-		fn(newTable.id, startIdx, oldLen)
-	}
-
-	// TODO: move this after the entire batch?
-	if w.storage.observers.HasObservers(OnAddRelations) {
-		newMask := &w.storage.archetypes[newTable.archetype].mask
-		earlyOut := true
-		for i := range oldLen {
-			index := uintptr(startIdx + i)
-			if !w.storage.observers.FireSetRelations(OnAddRelations, newTable.GetEntity(index), &changeMask, newMask, earlyOut) {
-				break
-			}
-			earlyOut = false
-		}
-	}
+	b.newTable = newTable.id
+	return b, true
 }
 
 // componentID returns the component ID for a runtime component type.
